@@ -94,7 +94,6 @@ Definition f_ofZ_exp (m e : Z) : float :=
 
 Definition f_fmod (x y : float) : option float :=
   match Prim2SF x, Prim2SF y with
-  | S754_zero _, S754_finite _ _ _ => Some x
   | S754_finite sx mx ex, S754_finite _ my ey =>
       let e := Z.min ex ey in
       let A := Z.shiftl (Z.pos mx) (ex - e) in
@@ -102,7 +101,11 @@ Definition f_fmod (x y : float) : option float :=
       let R := (A mod B)%Z in
       let r := f_ofZ_exp R e in
       Some (if sx then - r else r)
-  | _, _ => None
+  | S754_nan, _ | _, S754_nan => Some nan
+  | S754_infinity _, _ => Some nan               (* fmod(inf, y) *)
+  | _, S754_zero _ => Some nan                   (* fmod(x, 0) *)
+  | _, S754_infinity _ => Some x                 (* fmod(finite, inf) *)
+  | S754_zero _, S754_finite _ _ _ => Some x
   end.
 
 Definition iprec : FI.F.precision := FI.F.PtoP 90%positive.
@@ -135,6 +138,11 @@ Definition f_fn (f : fnid) (x : float) : option float :=
   match f_to_I x with
   | None => None
   | Some xi =>
+      (* limits of the IEEE functions outside the range evaluated by enclosure *)
+      if (match f with Flog | Flog10 => true | _ => false end) && (PrimFloat.eqb x 0) then Some neg_infinity else
+      if (match f with Flog | Flog10 => true | _ => false end) && (x <? 0) then Some nan else
+      if (match f with Fexp => true | _ => false end) && (710 <=? x) then Some infinity else
+      if (match f with Fexp => true | _ => false end) && (x <=? -746) then Some 0 else
       match f with
       | Fexp => if PrimFloat.abs x <? 700 then f_of_I (FI.I.exp iprec xi) else None
       | Flog => if 0 <? x then f_of_I (FI.I.ln iprec xi) else None
